@@ -459,13 +459,21 @@ def model_dump(ctx, a, res, rec):
     return None
 
 
+def _path(a):
+    """str or pathlib.Path, as the caller pleases"""
+    if a.get("as_path"):
+        from pathlib import Path
+        return Path(a["path"])
+    return a["path"]
+
+
 @op("ld.dump", writes="path", seam="dump_fcn", model=model_dump)
 def ld_dump(ctx, a, seam):
     nl, dl, cdl = _mods()
     doc = ctx.arg(a["doc"])
     if seam.used:
-        return dl.dump(a["path"], doc, dump_fcn=seam.wrap(dl.serialize))
-    return dl.dump(a["path"], doc)
+        return dl.dump(_path(a), doc, dump_fcn=seam.wrap(dl.serialize))
+    return dl.dump(_path(a), doc)
 
 
 def _expected_from_store(ctx, rec):
@@ -505,8 +513,8 @@ def model_load(ctx, a, res, rec):
 def ld_load(ctx, a, seam):
     nl, dl, cdl = _mods()
     if seam.used:
-        return dl.load(a["path"], deserialize_fcn=seam.wrap(dl.deserialize))
-    return dl.load(a["path"])
+        return dl.load(_path(a), deserialize_fcn=seam.wrap(dl.deserialize))
+    return dl.load(_path(a))
 
 
 def model_put(ctx, a, res, rec):
